@@ -19,7 +19,7 @@ import time
 VERIF = os.path.dirname(os.path.abspath(__file__))
 SIM_DIR = os.path.join(VERIF, "sim")
 BIN = os.path.join(VERIF, "target", "main", "release", "rrtk-sim")
-EVID = os.path.join(VERIF, "evidence")
+EVID = os.environ.get("VERIF_EVIDENCE_DIR") or os.path.join(VERIF, "evidence")
 REPLAYS = os.path.join(VERIF, "replays")
 KNOWN = os.path.join(VERIF, "known_findings.jsonl")
 
